@@ -796,6 +796,11 @@ func writeCompatibilitySerializers(w *formatting.IndentedWriter, change dsl.Defi
 			p := change.PreviousDefinition().(*dsl.RecordDefinition)
 			for i, field := range p.Fields {
 				tmpVarName := common.FieldIdentifierName(field.Name)
+				fieldName := tmpVarName
+				if tmpVarName == "value" || tmpVarName == "stream" {
+					// do not shadow the parameters of the serializer function
+					tmpVarName += "_"
+				}
 				if change.FieldRemoved[i] {
 					// Field was removed: Read it and discard, or Write "default" value
 					tmpVarType := common.TypeSyntax(field.Type)
@@ -808,17 +813,17 @@ func writeCompatibilitySerializers(w *formatting.IndentedWriter, change dsl.Defi
 						fmt.Fprintf(w, "%s %s = {};\n", tmpVarType, tmpVarName)
 
 						if write {
-							writeTypeConversion(w, tc, fmt.Sprintf("value.%s", tmpVarName), tmpVarName, write)
+							writeTypeConversion(w, tc, fmt.Sprintf("value.%s", fieldName), tmpVarName, write)
 							fmt.Fprintf(w, "%s(stream, %s);\n", typeRwFunction(tc.OldType(), write), tmpVarName)
 						} else {
 							fmt.Fprintf(w, "%s(stream, %s);\n", typeRwFunction(tc.OldType(), write), tmpVarName)
-							writeTypeConversion(w, tc, tmpVarName, fmt.Sprintf("value.%s", tmpVarName), write)
+							writeTypeConversion(w, tc, tmpVarName, fmt.Sprintf("value.%s", fieldName), write)
 						}
 					} else {
-						fmt.Fprintf(w, "%s(stream, value.%s);\n", typeRwFunction(tc.OldType(), write), tmpVarName)
+						fmt.Fprintf(w, "%s(stream, value.%s);\n", typeRwFunction(tc.OldType(), write), fieldName)
 					}
 				} else {
-					fmt.Fprintf(w, "%s(stream, value.%s);\n", typeRwFunction(field.Type, write), tmpVarName)
+					fmt.Fprintf(w, "%s(stream, value.%s);\n", typeRwFunction(field.Type, write), fieldName)
 				}
 			}
 		case *dsl.NamedTypeChange:
